@@ -151,34 +151,43 @@ def det_worker(args):
     orig = rfc6979.generate_k
     rec = []
 
+    hf = toy.xof(4)
+
     def gk(order, secexp, hash_func, data, retry_gen=0, extra_entropy=b""):
         k = orig(order, secexp, hash_func, data, retry_gen=retry_gen, extra_entropy=extra_entropy)
         rec.append((retry_gen, k))
+        gargs.append({"order": int(order), "x": int(secexp), "hashok": hash_func is hf, "data": b2l(data), "extra": b2l(extra_entropy)})
         return k
+    gargs = []
 
     rfc6979.generate_k = gk
     try:
         for d in ds:
             sk = SigningKey.from_secret_exponent(d, curve, hashfunc=toy.xof(4))
             for dg in digests:
-                for entry in ("digest", "data"):
+                for entry, extra in (("digest", b""), ("data", b""), ("digest", b"\x07extra"), ("data", bytes([d % 256]))):
                     del rec[:]
+                    del gargs[:]
                     try:
                         if entry == "digest":
-                            s1 = sk.sign_digest_deterministic(dg, hashfunc=toy.xof(4), sigencode=util.sigencode_strings, allow_truncate=True)
-                            first = list(rec)
-                            s2 = sk.sign_digest_deterministic(dg, hashfunc=toy.xof(4), sigencode=util.sigencode_strings, allow_truncate=True)
+                            s1 = sk.sign_digest_deterministic(dg, hashfunc=hf, sigencode=util.sigencode_strings, allow_truncate=True,
+                                                              extra_entropy=extra)
+                            first, fargs = list(rec), list(gargs)
+                            s2 = sk.sign_digest_deterministic(dg, hashfunc=hf, sigencode=util.sigencode_strings, allow_truncate=True,
+                                                              extra_entropy=extra)
                             digest = dg
                         else:
-                            s1 = sk.sign_deterministic(dg, hashfunc=toy.xof(4), sigencode=util.sigencode_strings)
-                            first = list(rec)
-                            s2 = sk.sign_deterministic(dg, hashfunc=toy.xof(4), sigencode=util.sigencode_strings)
-                            digest = toy.xof(4)(dg).digest()
+                            s1 = sk.sign_deterministic(dg, hashfunc=hf, sigencode=util.sigencode_strings, extra_entropy=extra)
+                            first, fargs = list(rec), list(gargs)
+                            s2 = sk.sign_deterministic(dg, hashfunc=hf, sigencode=util.sigencode_strings, extra_entropy=extra)
+                            digest = hf(dg).digest()
                         out = {"kind": "sig", "r": int.from_bytes(s1[0], "big"), "s": int.from_bytes(s1[1], "big")}
                         same = s1 == s2
                     except BaseException as e:  # noqa
-                        out, same, first, digest = {"kind": type(e).__name__, "r": 0, "s": 0}, True, list(rec), dg
-                    events.append({"op": "detsign", "d": d, "digest": b2l(digest), "allow": True,
+                        out, same, first, fargs = {"kind": type(e).__name__, "r": 0, "s": 0}, True, list(rec), list(gargs)
+                        digest = dg if entry == "digest" else hf(dg).digest()
+                    events.append({"op": "detsign", "d": d, "digest": b2l(digest), "allow": True, "given": b2l(digest),
+                                   "extra": b2l(extra), "gargs": fargs,
                                    "retries": [r for r, k in first], "ks": [k for r, k in first], "out": out, "same": same})
     finally:
         rfc6979.generate_k = orig
